@@ -282,6 +282,11 @@ extern const char *g_fe_desc;   /* description of the placement in force ("none"
 
 /* schedule point hook (memc): called from alloc wrappers when in a fiber */
 extern void (*g_sched_point)(int kind, const void *addr);
+/* observer of library frees (memc): block id and address, called before the block is poisoned */
+extern void (*g_free_hook)(int id, void *ptr);
+/* the schedule the last run actually took (memc), for replay files */
+extern int g_sched_trace[MAXSCHED];
+extern int g_nsched_trace;
 
 /* atomics shim (sim/shim/stdatomic.h, sched.h) */
 extern void (*g_atomic_hook)(const char *file, int line, const volatile void *addr, int kind);
